@@ -33,6 +33,7 @@ var externals = make(map[string]externalFn)
 func init() {
 	// That little dot ۰ is an Arabic zero numeral (U+06F0), categories [Nd].
 	maps.Copy(externals, map[string]externalFn{
+		"(reflect.Value).Addr":            ext۰reflect۰Value۰Addr,
 		"(reflect.Value).Bool":            ext۰reflect۰Value۰Bool,
 		"(reflect.Value).CanAddr":         ext۰reflect۰Value۰CanAddr,
 		"(reflect.Value).CanInterface":    ext۰reflect۰Value۰CanInterface,
